@@ -379,7 +379,8 @@ Fixpoint run (P : list pkgid) (VN FN : list name) (s : state) (ops : list op) : 
 Inductive xop :=
 | XB (o : op)
 | XSetqQ (p : pkgid) (n : name) (v : Z) (priv : bool)      (* priv: two colons *)
-| XDefvarQ (p : pkgid) (n : name) (v : Z) (priv : bool).
+| XDefvarQ (p : pkgid) (n : name) (v : Z) (priv : bool)
+| XFmakunboundQ (p : pkgid) (n : name) (priv : bool).      (* (fmakunbound 'p:n) / (fmakunbound 'p::n) *)
 
 (* the body of an operation run with CurrentPackage = p, the current package restored afterwards *)
 Definition as_pkg (s : state) (p : pkgid) (o : op) : state := step (step (step s (OInPkg p)) o) (OInPkg (cur s)).
@@ -412,11 +413,23 @@ Definition defvar_q (s : state) (p : pkgid) (n : name) (v : Z) (priv : bool) : s
   | _ => set_var_q s p n v priv
   end.
 
+(* fmakunbound on a qualified symbol (pkg/cl/fmakunbound.go as repaired by C13-14): when FindFunc resolves the
+   name (the rule of the call: exported, or two colons, or the function's home is the current package),
+   pkg.Undefine(name) - which does not look at the current package; otherwise nothing *)
+Definition fmakunbound_q (s : state) (p : pkgid) (n : name) (priv : bool) : state :=
+  match q_fun s (cur s) p n priv with
+  | QUnbound => s
+  | _ => as_pkg s p (OFmakunbound n)
+  end.
+(* the code before C13-14: CurrentPackage.Undefine("p:n"), a key no table holds: nothing happens *)
+Definition fmakunbound_q_orig (s : state) (p : pkgid) (n : name) (priv : bool) : state := s.
+
 Definition xstep (s : state) (o : xop) : state :=
   match o with
   | XB o => step s o
   | XSetqQ p n v priv => setq_q s p n v priv
   | XDefvarQ p n v priv => defvar_q s p n v priv
+  | XFmakunboundQ p n priv => fmakunbound_q s p n priv
   end.
 Fixpoint xrun (P : list pkgid) (VN FN : list name) (s : state) (ops : list xop) : list (list qres) :=
   match ops with
